@@ -36,7 +36,7 @@ package main
 //
 // Trace format, one group per event:
 //
-//	N <n> <electionTick> <rngseed> <MaxSizePerMsg> <k: initial voters 1..k, 0 = all> <flags: 1 PreVote, 2 CheckQuorum, 4 learners, 8 TransferLeader events>
+//	N <n> <electionTick> <rngseed> <MaxSizePerMsg> <k: initial voters 1..k, 0 = all> <flags: 1 PreVote, 2 CheckQuorum, 4 learners, 8 TransferLeader events, 16 mixed entry sizes + small MaxSizePerMsg/MaxCommittedSizePerReady + few in-flight messages>
 //	EV <kind> <node> <args>
 //	OUT <msg>                     (0 or more: what the node handed to the network)
 //	ST <node> <term> <vote> <commit> <role F|C|L> <lead> <nlog> (<term> <payload>)* [CFG <nin> ids <nout> ids <autoleave> <nlearners> ids]
@@ -84,6 +84,8 @@ type simNode struct {
 	// ConfState of the storage's snapshot: a compaction at index i must record the ConfState as of i
 	csAt   map[uint64]pb.ConfState
 	csBase pb.ConfState
+	// index of the last entry handed out in CommittedEntries (or covered by the applied snapshot)
+	applied uint64
 }
 
 // a message on the network; ghost = for MsgSnap, the sender's log up to the snapshot index
@@ -100,6 +102,7 @@ type cluster struct {
 	preVote      bool // Config.PreVote (simpv schedules; monitored, not model-validated)
 	checkQuorum  bool // Config.CheckQuorum
 	transfer     bool // the scheduler also calls TransferLeader (monitor-only schedules)
+	mixed        bool  // flag 16: a third of the normal entries are big (zero-padded payload), MaxSizePerMsg a few small entries, few in-flight messages
 	batch        []int // the entries (payload codes) of the PB event being executed
 	followNode   int   // after a batch with a late conf change: the leader to pester with further conf changes
 	followLeft   int
@@ -223,6 +226,22 @@ func entsStr(es []pb.Entry) string {
 	return b.String()
 }
 
+// entsStrFrom renders the entries of a MsgApp; they must carry the indexes first, first+1, ...: an
+// entry at another index is rendered with the impossible payload 4000 + index mod 1000, so that the
+// message cannot be mistaken for the contiguous slice the model requires
+func entsStrFrom(first uint64, es []pb.Entry) string {
+	var b strings.Builder
+	fmt.Fprintf(&b, "%d", len(es))
+	for i, e := range es {
+		p := payloadOf(e)
+		if e.Index != first+uint64(i) {
+			p = 4000 + e.Index%1000
+		}
+		fmt.Fprintf(&b, " %d %d", e.Term, p)
+	}
+	return b.String()
+}
+
 // msgKey renders a message in the model's vocabulary (and doubles as its identity for replays).
 func msgKey(fm flightMsg) string {
 	m := fm.m
@@ -236,7 +255,7 @@ func msgKey(fm flightMsg) string {
 	case pb.MsgVoteResp:
 		return fmt.Sprintf("W %d %d %d 0 0 0 %d 0", m.From, m.To, m.Term, rej)
 	case pb.MsgApp:
-		return fmt.Sprintf("A %d %d %d %d %d %d 0 %s", m.From, m.To, m.Term, m.LogTerm, monus1(m.Index), monus1(m.Commit), entsStr(m.Entries))
+		return fmt.Sprintf("A %d %d %d %d %d %d 0 %s", m.From, m.To, m.Term, m.LogTerm, monus1(m.Index), monus1(m.Commit), entsStrFrom(m.Index+1, m.Entries))
 	case pb.MsgAppResp:
 		return fmt.Sprintf("B %d %d %d 0 %d 0 %d 0", m.From, m.To, m.Term, monus1(m.Index), rej)
 	case pb.MsgHeartbeat:
@@ -276,7 +295,7 @@ func (c *cluster) config(nd *simNode) *raft.Config {
 		HeartbeatTick:             1,
 		Storage:                   nd.st,
 		MaxSizePerMsg:             c.maxSize,
-		MaxInflightMsgs:           256,
+		MaxInflightMsgs:           c.inflight(),
 		MaxUncommittedEntriesSize: 1 << 30,
 		Logger:                    theLogger,
 		PreVote:                   c.preVote,
@@ -284,9 +303,29 @@ func (c *cluster) config(nd *simNode) *raft.Config {
 	}
 }
 
+// few messages in flight in mixed-size schedules, so that a follower in StateReplicate lags behind
+// the leader's stable log when the next proposal arrives (a function of the header, for replays)
+func (c *cluster) inflight() int {
+	if c.mixed {
+		return 1 + int(c.maxSize%3)
+	}
+	return 256
+}
+
+// the bytes of a normal entry: its payload in decimal; in mixed-size schedules a third of the
+// payloads are padded with leading zeros to 40..110 bytes (the value, hence the model's entry, is
+// the same)
+func (c *cluster) dataOf(p int) []byte {
+	d := strconv.Itoa(p)
+	if c.mixed && p%3 == 1 {
+		d = strings.Repeat("0", 40+7*(p%11)) + d
+	}
+	return []byte(d)
+}
+
 func newCluster(n, electionTick int, rngseed uint64, maxSize uint64, ccVoters int, flags int, w *bufio.Writer) (*cluster, error) {
 	c := &cluster{n: n, electionTick: electionTick, maxSize: maxSize, ccVoters: ccVoters, w: w, nextPayload: 1,
-		preVote: flags&1 != 0, checkQuorum: flags&2 != 0, learners: flags&4 != 0, transfer: flags&8 != 0}
+		preVote: flags&1 != 0, checkQuorum: flags&2 != 0, learners: flags&4 != 0, transfer: flags&8 != 0, mixed: flags&16 != 0}
 	reseedRaftRand(rngseed)
 	nv := n
 	if ccVoters > 0 && ccVoters < n {
@@ -301,7 +340,7 @@ func newCluster(n, electionTick int, rngseed uint64, maxSize uint64, ccVoters in
 		if err := st.ApplySnapshot(pb.Snapshot{Metadata: pb.SnapshotMetadata{Index: 1, Term: 0, ConfState: pb.ConfState{Voters: voters}}}); err != nil {
 			return nil, err
 		}
-		nd := &simNode{id: uint64(i + 1), st: st, csAt: map[uint64]pb.ConfState{}, csBase: pb.ConfState{Voters: voters}}
+		nd := &simNode{id: uint64(i + 1), st: st, csAt: map[uint64]pb.ConfState{}, csBase: pb.ConfState{Voters: voters}, applied: 1}
 		rn, err := raft.NewRawNode(c.config(nd))
 		if err != nil {
 			return nil, err
@@ -331,11 +370,18 @@ func (c *cluster) drain(nd *simNode) []pb.Message {
 				panic("harness: snapshot without its ghost prefix")
 			}
 			nd.shadow = append([]pb.Entry(nil), nd.pendingGhost[:k]...)
+			nd.applied = rd.Snapshot.Metadata.Index
 			nd.csBase = rd.Snapshot.Metadata.ConfState
 			nd.csAt = map[uint64]pb.ConfState{}
 			nd.autoLeave = nd.csBase.AutoLeave
 		}
 		if len(rd.Entries) > 0 {
+			// the Ready contract: entries to persist are contiguous
+			for i, e := range rd.Entries {
+				if e.Index != rd.Entries[0].Index+uint64(i) {
+					panic(fmt.Sprintf("Ready.Entries not contiguous: index %d at position %d after first index %d", e.Index, i, rd.Entries[0].Index))
+				}
+			}
 			at := int(rd.Entries[0].Index) - 2 // position in shadow of the first new entry
 			if at < 0 || at > len(nd.shadow) {
 				panic("harness: entries do not connect to the shadow log")
@@ -352,6 +398,11 @@ func (c *cluster) drain(nd *simNode) []pb.Message {
 		}
 		out = append(out, rd.Messages...)
 		for _, e := range rd.CommittedEntries {
+			// the Ready contract: committed entries are handed out in order, without gaps, once
+			if e.Index != nd.applied+1 {
+				panic(fmt.Sprintf("Ready.CommittedEntries not contiguous: index %d handed out after %d", e.Index, nd.applied))
+			}
+			nd.applied = e.Index
 			switch e.Type {
 			case pb.EntryConfChange:
 				var cc pb.ConfChange
@@ -382,6 +433,9 @@ func (c *cluster) rebuild(nd *simNode) {
 		panic(err)
 	}
 	nd.rn = rn
+	if fi, err := nd.st.FirstIndex(); err == nil {
+		nd.applied = fi - 1 // a restarted node re-applies its log from the storage's first index
+	}
 	nd.autoLeave = nd.csBase.AutoLeave // the storage's ConfState; later committed conf changes are re-applied by the Ready loop
 }
 
@@ -459,6 +513,8 @@ func (c *cluster) exec(kind string, i int, payload int, m *flightMsg) (ok bool) 
 		fmt.Fprintln(c.w)
 	case "D", "DD":
 		fmt.Fprintf(c.w, "EV %s %d %s\n", kind, nd.id, msgKey(*m))
+	case "PD":
+		fmt.Fprintf(c.w, "EV %s %d %d %s\n", kind, nd.id, payload, msgKey(*m))
 	case "FP", "FPD":
 		fmt.Fprintf(c.w, "EV %s %d %s\n", kind, nd.id, msgKey(*m))
 	}
@@ -472,7 +528,7 @@ func (c *cluster) exec(kind string, i int, payload int, m *flightMsg) (ok bool) 
 	case "C":
 		_ = nd.rn.Campaign()
 	case "P":
-		_ = nd.rn.Propose([]byte(strconv.Itoa(payload)))
+		_ = nd.rn.Propose(c.dataOf(payload))
 	case "T":
 		nd.rn.Tick()
 	case "R":
@@ -528,11 +584,21 @@ func (c *cluster) exec(kind string, i int, payload int, m *flightMsg) (ok bool) 
 		if nd.rn.Status().RaftState == raft.StateLeader && len(c.batch) > 0 {
 			ents := make([]pb.Entry, 0, len(c.batch))
 			for _, p := range c.batch {
-				ents = append(ents, entryOfCode(p))
+				e := entryOfCode(p)
+				if e.Type == pb.EntryNormal {
+					e.Data = c.dataOf(p)
+				}
+				ents = append(ents, e)
 			}
 			_ = nd.rn.Step(pb.Message{Type: pb.MsgProp, From: nd.id, Entries: ents})
 		}
 	case "D", "DD", "FP", "FPD":
+		nd.pendingGhost = m.ghost
+		_ = nd.rn.Step(m.m)
+	case "PD":
+		// a proposal and, BEFORE the Ready loop runs (the new entries are still unstable), a message:
+		// resends triggered by the message read a log whose tail is not persisted yet
+		_ = nd.rn.Propose(c.dataOf(payload))
 		nd.pendingGhost = m.ghost
 		_ = nd.rn.Step(m.m)
 	}
@@ -569,6 +635,10 @@ type profile struct {
 func (c *cluster) runRandom(r *rng, nevents int) {
 	p := profile{wDeliver: 50 + r.intn(40), wDup: r.intn(8), wDrop: r.intn(10), wTick: 4 + r.intn(12),
 		wPropose: 4 + r.intn(12), wCampaign: 1 + r.intn(6), wRestart: r.intn(5), wCrashMid: r.intn(4), wPartition: r.intn(3)}
+	if c.mixed {
+		// size limits only bite on a busy log
+		p.wPropose += 12
+	}
 	if c.ccVoters > 0 {
 		// membership-change schedules: conf changes, and in half of them compaction as well
 		p.wConf = 2 + r.intn(8)
@@ -611,6 +681,11 @@ func (c *cluster) runRandom(r *rng, nevents int) {
 			default:
 				kind = "FP"
 			}
+		}
+		if kind == "D" && c.mixed && !c.preVote && c.ccVoters == 0 &&
+			c.nodes[m.m.To-1].rn.Status().RaftState == raft.StateLeader && r.chance(1, 3) {
+			// the leader has just been handed a proposal and has not run its Ready loop yet
+			return c.exec("PD", int(m.m.To-1), c.payload(), &m)
 		}
 		return c.exec(kind, int(m.m.To-1), 0, &m)
 	}
@@ -828,13 +903,19 @@ func cmdSim(args []string) error {
 			maxSize = 0
 		}
 		flags := 0
+		if !simWithConfChanges && r.chance(1, 3) {
+			// mixed entry sizes with a MaxSizePerMsg (= MaxCommittedSizePerReady) of a few small
+			// entries: size limits bite in the middle of the log
+			flags = 16
+			maxSize = uint64(24 + r.intn(70))
+		}
 		if simWithConfChanges && n >= 2 && r.chance(1, 4) {
 			flags = 4 // learners too (add learner, promote, demote a voter)
 		}
 		if simWithPreVote {
 			// PreVote on; CheckQuorum on in half of the schedules; a small election timeout in half
 			// of them so that ticks campaign and CheckQuorum fires
-			flags = 1
+			flags = 1 | (flags & 16)
 			if r.chance(1, 2) {
 				flags |= 2
 				if r.chance(1, 3) {
@@ -944,6 +1025,25 @@ func cmdSimFile(args []string) error {
 					continue
 				}
 				ok = c.exec(kind, id-1, p, nil)
+			case "PD":
+				if len(tok) < 5 {
+					continue
+				}
+				p, _ := strconv.Atoi(tok[3])
+				key := strings.Join(tok[4:], " ")
+				found := -1
+				for k, fm := range c.flight {
+					if msgKey(fm) == key {
+						found = k
+						break
+					}
+				}
+				if found < 0 {
+					continue
+				}
+				m := c.flight[found]
+				c.flight = append(c.flight[:found], c.flight[found+1:]...)
+				ok = c.exec(kind, id-1, p, &m)
 			case "D", "DD", "FP", "FPD":
 				key := strings.Join(tok[3:], " ")
 				found := -1
